@@ -112,6 +112,8 @@ func VerifC11Events() {
 	ep := v.Choice("entry", 5)
 	prof := verifProfiles[v.Choice("profile", len(verifProfiles))]
 	ch := make(chan e.Event, 64)
+	// the document may start with three arbitrary bytes (a byte order mark, blanks, ...)
+	data := v.Bytes("prefix", 3*v.Choice("prefixLen", 2)) + "<<data>>"
 	var compiled *rego.PreparedEvalQuery
 	var cerr error
 	compileFailed := false
@@ -119,9 +121,9 @@ func VerifC11Events() {
 	panicked, msg := verifGuard(func() {
 		switch ep {
 		case 0:
-			Validate(prof, "<<data>>", false, &ch)
+			Validate(prof, data, false, &ch)
 		case 1:
-			ValidateWithConfiguration(prof, "<<data>>", false, &ch, c.TestValidationConfiguration{}, c.DefaultReportConfiguration())
+			ValidateWithConfiguration(prof, data, false, &ch, c.TestValidationConfiguration{}, c.DefaultReportConfiguration())
 		default:
 			compiled, cerr = CompileProfile(prof, false, &ch)
 			if cerr != nil {
@@ -129,9 +131,9 @@ func VerifC11Events() {
 				return
 			}
 			if ep == 2 {
-				ValidateCompiled(compiled, "<<data>>", false, &ch)
+				ValidateCompiled(compiled, data, false, &ch)
 			} else if ep == 3 {
-				ValidateCompiledWithConfiguration(compiled, "<<data>>", false, &ch, c.TestValidationConfiguration{}, c.DefaultReportConfiguration())
+				ValidateCompiledWithConfiguration(compiled, data, false, &ch, c.TestValidationConfiguration{}, c.DefaultReportConfiguration())
 			}
 		}
 	})
@@ -341,6 +343,9 @@ func VerifC11EventsNative() {
 	} else if v.ReplayBool("flag:v.eval.empty") {
 		prof = verifReportFailProfile
 	}
+	// the recorded first bytes of the document go in front of the witness (a prefix that is not blank
+	// makes the text unreadable, which is what the decoder was recorded to say in that case)
+	data = string(v.ReplayBytes("prefix")) + data
 	ch := make(chan e.Event, 64)
 	compileFailed := false
 	panicked, msg := verifGuard(func() {
